@@ -272,7 +272,6 @@ fn main() {
         let texts: Vec<Vec<u8>> = ["a\r\nb\r\n\nc", "\r\n\n", "a\rb\r\n\n", "a\r\nb\r\nc", "\n", "a\r\n", "\r\r\n\n", "ab\r\n\r\ncd", "\u{e9}", "a\u{20ac}b\r\n", "\u{1d11e}x", "\u{e9}\n\u{20ac}"].iter().map(|t| t.as_bytes().to_vec())
             .chain([b"a\xffb".to_vec(), b"\xc3".to_vec(), b"ab\xf0\x9f\x98".to_vec(), b"\xed\xa0\x80".to_vec(), b"\xf0\x9f\x98\x80\xf0\x9f".to_vec(), b"\xc3\r\n\xa9".to_vec()]).collect();
         for data in texts {
-            let valid_utf8 = std::str::from_utf8(&data).is_ok();
             let run = |sched: Vec<usize>| -> String { guarded(|| -> Result<Vec<u8>, String> {
                 let mut b = MessageBuilder::from_reader("", SchedReader::new(data.clone(), sched));
                 b.data_mode(DataMode::Utf8).map_err(|e| e.to_string())?;
@@ -282,8 +281,8 @@ fn main() {
             for comp in all_compositions(data.len()) {
                 let r = run(comp.clone());
                 let same = r == reference;
-                // the model's reader (Io/CrLfCheck.v) over the same cutting: the verdict
-                if valid_utf8 {
+                // the model's readers (Io/Utf8Check.v under Io/CrLfCheck.v) over the same cutting: the verdict
+                {
                     let mut pcs = Vec::new(); let mut at = 0usize;
                     for n in &comp { pcs.push(hx(&data[at..at + n])); at += n; }
                     cx.out.case("crlf", &[pcs.join(",")], &["utf8-literal-verdict".into(), hx(&data), nums(&comp)], if r.starts_with("OK") { "OK" } else if r == "ERR" { "ERR" } else { &r }, None, "utf8-literal-verdict");
